@@ -1597,13 +1597,48 @@ func (fx *Facts) verdictFormedByHelper(e ssa.Value) bool {
 				if arg != a || i >= len(g.Params) {
 					continue
 				}
-				if _, tested := fx.errBranches(g.Params[i]); tested {
+				if _, tested := fx.errBranches(g.Params[i]); tested && fx.resultTellsNilness(g, g.Params[i]) {
 					return true
 				}
 			}
 		}
 	}
 	return false
+}
+
+// resultTellsNilness: what g returns where it found the parameter nil differs from what it returns where it found it
+// non-nil (constants on both sides, no value in common): the caller that returns g's result reports the failure.
+func (fx *Facts) resultTellsNilness(g *ssa.Function, prm *ssa.Parameter) bool {
+	aps, ok := fx.atomPaths(g, 256)
+	if !ok || g.Signature.Results().Len() != 1 {
+		return false
+	}
+	onNil, onErr := map[string]bool{}, map[string]bool{}
+	for i := range aps {
+		p := &aps[i]
+		if p.Ret == nil {
+			continue
+		}
+		isNil, nonNil := fx.errNilness(p, prm)
+		c, isC := fx.retVal(p, 0).(*ssa.Const)
+		if !isC || c.Value == nil || !isNil && !nonNil {
+			return false
+		}
+		if isNil {
+			onNil[c.Value.ExactString()] = true
+		} else {
+			onErr[c.Value.ExactString()] = true
+		}
+	}
+	if len(onNil) == 0 || len(onErr) == 0 {
+		return false
+	}
+	for k := range onNil {
+		if onErr[k] {
+			return false
+		}
+	}
+	return true
 }
 
 // liftToCaller: the call c sits in an unexported module helper (not a closure, never used as a value) that is called
